@@ -137,16 +137,30 @@ Print Assumptions ids_stable.
 
 (** The reported supply of a class equals the number of its tokens, the number of owner-index
     entries of the class, and the sum of the balances of any duplicate-free list of addresses
-    that contains all owners of the class. *)
+    that contains all owners of the class.  The supply counter is a uint64 that the x/nft keeper
+    increments and decrements unchecked (modelled with the wrap-around): it equals the number of
+    tokens modulo 2^64 in every reachable state, hence exactly whenever that number is below 2^64. *)
 Theorem supply_eq_tokens_eq_balances :
   forall s : state, Reachable s ->
-    (forall c, total_supply s c = n_tokens s c)
+    (forall c, total_supply s c = n_tokens s c mod two64)
+    /\ (forall c, n_tokens s c < two64 -> total_supply s c = n_tokens s c)
     /\ (forall c, n_index s c = n_tokens s c)
     /\ (forall c, n_tokens s c = Z.of_nat (length (tokens_of s c)))
     /\ (forall c (l : list addr), NoDup l -> (forall a t, In (a, c, t) (index s) -> In a l) ->
-          zsum (map (fun a => balance s a c) l) = total_supply s c).
+          zsum (map (fun a => balance s a c) l) = n_tokens s c).
 Proof. exact r_supply. Qed.
 Print Assumptions supply_eq_tokens_eq_balances.
+
+(** ... and the number of tokens of a class grows by at most one per step: after any history of
+    fewer than 2^64 steps the counter has not wrapped and the reported supply IS the number of
+    tokens (no unchecked increment or decrement ever over- or underflowed). *)
+Theorem supply_counter_no_wrap :
+  forall (steps : list step) (c : cid),
+    Z.of_nat (length steps) < two64 ->
+    n_tokens (run init steps) c <= Z.of_nat (length steps)
+    /\ total_supply (run init steps) c = n_tokens (run init steps) c.
+Proof. exact r_supply_no_wrap. Qed.
+Print Assumptions supply_counter_no_wrap.
 
 (** The owner is never locked out: in every reachable state the recorded owner of a token can
     burn it and can transfer it (without changes) to any address — also in restricted classes
@@ -169,11 +183,11 @@ Print Assumptions rejected_step_changes_nothing.
     evaluates on the IMPLEMENTATION's observations (agreement with the model, and the seven
     clauses of C14 on two consecutive observations) hold of the MODEL's own trace — the
     observations computed from the model state, balances listed for any duplicate-free list of
-    actors — for every history whose recipients are among the actors: the checker answers
-    (-1, -1, 0).  So an alarm always means the implementation showed something the model does not. *)
+    actors — for every history of fewer than 2^64 steps (the supply counter is a uint64) whose
+    recipients are among the actors: the checker answers (-1, -1, 0).  So an alarm always means the implementation showed something the model does not. *)
 Theorem model_passes_check :
   forall (actors : list addr), NoDup actors ->
-  forall (steps : list step), Forall (step_covered actors) steps ->
+  forall (steps : list step), Forall (step_covered actors) steps -> Z.of_nat (length steps) < two64 ->
     check_case (model_trace actors init steps) = (-1, -1, 0).
 Proof. exact model_passes_check_lemma. Qed.
 Print Assumptions model_passes_check.
@@ -211,6 +225,7 @@ Example c14_nonvacuous :
   /\ total_supply s 1 = 2 /\ n_tokens s 1 = 2 /\ balance s 0 1 = 2 /\ balance s 3 2 = 1
   /\ get 1 (classes s) = Some (3, true, true, 0, [2; 0; 0; 0; 0; 0])
   /\ check_case (model_trace [0; 1; 2; 3] init ex_hist) = (-1, -1, 0)
+  /\ Z.of_nat (length ex_hist) < two64
   /\ Forall (step_covered [0; 1; 2; 3]) ex_hist
   /\ burned_in init ex_hist 1 1
   /\ ~ burned_in (run init (firstn 5 ex_hist)) (firstn 13 (skipn 5 ex_hist)) 1 1.
